@@ -110,9 +110,15 @@ def make_machine(mod, col, kinds=None, faults='some', rich=True, degenerate=True
         def send(self, data):
             state = xmlcmp.state_of(ET.fromstring(str(self.ro)))
             self.mid += data.draw(st.integers(1, 120))
-            _kind, msg_xml = data.draw(gen.message(
-                state, self.ro_id, kinds=kinds, faults=faults, rich=rich, mid=self.mid,
-                degenerate=degenerate, timing_mode=timing_mode))
+            try:
+                _kind, msg_xml = data.draw(gen.message(
+                    state, self.ro_id, kinds=kinds, faults=faults, rich=rich, mid=self.mid,
+                    degenerate=degenerate, timing_mode=timing_mode))
+            except (IndexError, KeyError, ValueError, AssertionError, TypeError, AttributeError):
+                # a corrupted state (e.g. duplicate IDs produced by a defective tree) can be
+                # outside what the message generator handles: skip the step, keep the run
+                col.excluded['generator could not draw a message for the reached state'] += 1
+                return
             ev = live_step(self.ro, msg_xml, self.hist)
             self.hist.append(msg_xml)
             mod.record(col, ev)
